@@ -117,6 +117,21 @@ pub fn run(o: &Opts) -> Report {
             (mk(), bv(&["prog", "-q"]), Box::new(|m| want_source(m, "quiet", Some(clap::parser::ValueSource::CommandLine)))),
         ];
         run_expect(&mut rep, o, "fault-free-line-rejected", cases);
+        // a positional that takes hyphen values: a group that is not entirely made of known shorts is its value - no rule is
+        // broken, so nothing may be rejected (and nothing consumed as a flag); an all-known group is still a group of flags
+        let mkh = |multi: bool| { let mut c = CmdS { name: "prog".into(), ..Default::default() };
+            c.args.push(ArgS { id: "fast".into(), short: Some('f'), action: Some("setTrue"), ..Default::default() });
+            c.args.push(ArgS { id: "quiet".into(), short: Some('q'), action: Some("count"), ..Default::default() });
+            c.args.push(ArgS { id: "cmd".into(), allow_hyphen: true, num_vals: if multi { Some((1, None)) } else { None }, ..Default::default() }); c };
+        let mut hc: Vec<(CmdS, Vec<Vec<u8>>, Expect)> = vec![];
+        for multi in [false, true] {
+            for w in ["-fx", "-xf", "-fast", "-qfz", "-é"] {
+                hc.push((mkh(multi), bv(&["prog", w]), Box::new(move |m| { want_occs(m, &[], "cmd", &[&[w]])?; want_source(m, "fast", Some(clap::parser::ValueSource::DefaultValue)) })));
+            }
+            hc.push((mkh(multi), bv(&["prog", "-fq", "-fx"]), Box::new(|m| { want_occs(m, &[], "cmd", &[&["-fx"]])?; want_source(m, "fast", Some(clap::parser::ValueSource::CommandLine)) })));
+            hc.push((mkh(multi), bv(&["prog", "-qf"]), Box::new(|m| { want_source(m, "fast", Some(clap::parser::ValueSource::CommandLine))?; want_source(m, "cmd", None) })));
+        }
+        run_expect(&mut rep, o, "fault-free-line-rejected", hc);
         let (canon, _, _) = real_parse(&mk(), &bv(&["prog"]));
         if canon != "ERR DisplayHelpOnMissingArgumentOrSubcommand" { rep.oracle_fail("wrong-error-kind", &parse_request(&mk(), &bv(&["prog"])), &format!("empty command line under arg_required_else_help: {canon}")); }
     }
